@@ -34,7 +34,7 @@ ASSUMPTIONS = [
 DECIDING = ['bp.app.bpsec:CoseContext.apply_bib', 'bp.app.bpsec:CoseContext.verify_bib', 'bp.app.bpsec:CoseContext.verify_bib_target',
             'bp.app.bpsec:CoseSecOpCtx.get_external_aad', 'bp.app.bpsec:CoseSecOpCtx.decode_msg', 'bp.app.bpsec:CoseContext._get_cose_key']
 REQUIRED_OBS = ['agent_bibs_confirmed', 'mutants_expect_reject', 'mutants_expect_accept', 'verify_fail_seen', 'verify_ok_seen',
-                'sign1_bundles', 'oracle_scope_bibs', 'wrong_key_runs', 'multi_target_bibs', 'certificate_variant_runs']
+                'sign1_bundles', 'oracle_scope_bibs', 'wrong_key_runs', 'multi_target_bibs', 'certificate_variant_runs', 'accepting_receiver_runs']
 
 KINDS = ['mac0-256', 'mac0-384', 'mac0-512', 'sign1']  # 'sign1-x5t': upstream pycose 1.1.0 X5T.encode() is not CBOR-encodable, the source raises
 
@@ -65,12 +65,12 @@ def produce(kind, bundle, target_types=(1,)):
     return outs[0] if len(outs) == 1 else None
 
 
-def receive(data, kind, keys='all'):
+def receive(data, kind, keys='all', accept=False):
     ''' Push bytes into a fresh real receiver.  :return: (delivered payload or None, verify log, exception) '''
     from vf.world.sim import Sim
     from vf import sec_harness as sh
     sim = Sim(0, 'eager')
-    dst = sh.receiver_node(sim, keys)
+    dst = sh.receiver_node(sim, keys, accept=accept)
     ctx = dst.bpsec_ctx()
     if keys == 'all':
         alg = {'mac0-384': 'HMAC384', 'mac0-512': 'HMAC512'}.get(kind, 'HMAC256')
@@ -150,7 +150,7 @@ def covered_spans(data, sec_type=11):
     return covered, outside
 
 
-def judge(mutant, kind, obs, label, keys='all', location=None):
+def judge(mutant, kind, obs, label, keys='all', location=None, accept=False):
     ''' Compare the independent verdict with the real receiver's. '''
     from vf import sec_harness as sh
     verdict, why = cb.verify_bundle(mutant, sh.oracle_keys(keys))
@@ -160,7 +160,7 @@ def judge(mutant, kind, obs, label, keys='all', location=None):
         obs['mutants_no_security_block'] += 1
         return []
     crypto_fail = verdict == 'fail' and any(why.startswith(text) for text in CRYPTO_FAILS)
-    payload, log, err, loop_errs = receive(mutant, kind, keys)
+    payload, log, err, loop_errs = receive(mutant, kind, keys, accept)
     fails = [item for item in log if item[2] != 'ok']
     oks = [item for item in log if item[2] == 'ok']
     problems = []
@@ -368,7 +368,7 @@ def cases(tier, seed):
 def run_case(case):
     from vf import sec_harness as sh
     obs = dict(agent_bibs_confirmed=0, mutants_expect_reject=0, mutants_expect_accept=0, verify_fail_seen=0, verify_ok_seen=0,
-               sign1_bundles=0, oracle_scope_bibs=0, wrong_key_runs=0, multi_target_bibs=0, certificate_variant_runs=0, mutants_no_security_block=0, accepted_but_not_delivered=0, mutants_structural_no_obligation=0)
+               sign1_bundles=0, oracle_scope_bibs=0, wrong_key_runs=0, multi_target_bibs=0, certificate_variant_runs=0, accepting_receiver_runs=0, mutants_no_security_block=0, accepted_but_not_delivered=0, mutants_structural_no_obligation=0)
     rng = random.Random(case['seed'])
     violations = []
     classes = set()
@@ -420,6 +420,11 @@ def run_case(case):
                 else:
                     for mutant, label in field_mutants(data, rng):
                         note(judge(mutant, cose, obs, label, location=('covered', label[9:]) if label.startswith('covered: ') else None), mutant, label)
+                        if multi:
+                            # the same at a receiver that accepts (removes) verified targets one by one
+                            obs['accepting_receiver_runs'] += 1
+                            note(judge(mutant, cose, obs, label + ' [accepting receiver]', accept=True,
+                                       location=('covered', label[9:]) if label.startswith('covered: ') else None), mutant + b'A', label)
         elif kind == 'scope':
             scope = {(key if key == 'other' else int(key)): val for key, val in case['scope']}
             addl = {99: 7} if case['addl'] else None
@@ -439,6 +444,10 @@ def run_case(case):
                 for mutant, label in field_mutants(data, rng):
                     note(judge(mutant, 'mac0-256', obs, label + ' (scope %s)' % scope,
                                location=('covered', label[9:]) if label.startswith('covered: ') else None), mutant, label)
+                    if case.get('targets', 'payload') != 'payload':
+                        obs['accepting_receiver_runs'] += 1
+                        note(judge(mutant, 'mac0-256', obs, label + ' (scope %s) [accepting receiver]' % scope, accept=True,
+                                   location=('covered', label[9:]) if label.startswith('covered: ') else None), mutant + b'A', label)
                 covered, outside = covered_spans(data)
                 for mutant, label, pos in bit_flips(data, rng, 300):
                     note(judge(mutant, 'mac0-256', obs, label + ' (scope %s)' % scope, location=_locate(pos, covered, outside)), mutant, label)
